@@ -280,10 +280,11 @@ pub fn gen_doc_table(rng: &mut Rng, u: &[MVer]) -> (Vec<DocEp>, bool) {
     let eps = table
         .into_iter()
         .map(|mut ep| {
-            // wildcard endpoints stay unpublished (the macro enforces the same)
             // (extension methods cannot be published either: OpenAPI path items have no
             // slot for them and gen_openapi refuses them)
-            ep.visible = !ep.has_wild() && !rng.chance(1, 5) && ep.method != "Purge";
+            // (the macros force wildcard endpoints to be unpublished; a hand-built ApiEndpoint
+            // may publish one, and is then listed under `{name}`)
+            ep.visible = (!ep.has_wild() || rng.chance(1, 4)) && !rng.chance(1, 5) && ep.method != "Purge";
             let mut tags = vec![];
             for _ in 0..rng.usize(3) {
                 let t = rng.pick(&tagpool).to_string();
